@@ -857,6 +857,53 @@ func (c *Ctx) intCmp(op Op, a, b *Term) *Term {
 	if a == b {
 		return c.BoolConst(op == OpILe)
 	}
+	// comparisons of a constant with the integer value of a bit-vector stay in the bit-vector theory
+	if a.Op == OpIntConst {
+		switch b.Op {
+		case OpIte:
+			return c.Ite(b.Args[0], c.intCmp(op, a, b.Args[1]), c.intCmp(op, a, b.Args[2]))
+		case OpISub:
+			if b.Args[1].Op == OpIntConst {
+				return c.intCmp(op, c.IntConst(new(big.Int).Add(a.Val, b.Args[1].Val)), b.Args[0])
+			}
+		case OpBV2Nat:
+			w := b.Args[0].Sort.W
+			k := a.Val
+			if op == OpILt { // k < n  <=>  k+1 <= n
+				k = new(big.Int).Add(k, big.NewInt(1))
+			}
+			if k.Sign() <= 0 {
+				return c.tt
+			}
+			if k.Cmp(mask(w)) > 0 {
+				return c.ff
+			}
+			return c.BVULe(c.BVConst(k, w), b.Args[0])
+		}
+	}
+	if b.Op == OpIntConst {
+		switch a.Op {
+		case OpIte:
+			return c.Ite(a.Args[0], c.intCmp(op, a.Args[1], b), c.intCmp(op, a.Args[2], b))
+		case OpISub:
+			if a.Args[1].Op == OpIntConst {
+				return c.intCmp(op, a.Args[0], c.IntConst(new(big.Int).Add(b.Val, a.Args[1].Val)))
+			}
+		case OpBV2Nat:
+			w := a.Args[0].Sort.W
+			k := b.Val
+			if op == OpILt { // n < k  <=>  n <= k-1
+				k = new(big.Int).Sub(k, big.NewInt(1))
+			}
+			if k.Sign() < 0 {
+				return c.ff
+			}
+			if k.Cmp(mask(w)) >= 0 {
+				return c.tt
+			}
+			return c.BVULe(a.Args[0], c.BVConst(k, w))
+		}
+	}
 	return c.mk(&Term{Op: op, Sort: Bool, Args: []*Term{a, b}})
 }
 func (c *Ctx) ILt(a, b *Term) *Term { return c.intCmp(OpILt, a, b) }
@@ -889,6 +936,19 @@ func (c *Ctx) Int2BV(a *Term, w int) *Term {
 	}
 	if a.Op == OpBV2Nat && a.Args[0].Sort.W <= w {
 		return c.ZExt(a.Args[0], w)
+	}
+	if a.Op == OpBV2Nat {
+		return c.Extract(a.Args[0], w-1, 0)
+	}
+	if a.Op == OpIte {
+		return c.Ite(a.Args[0], c.Int2BV(a.Args[1], w), c.Int2BV(a.Args[2], w))
+	}
+	if (a.Op == OpISub || a.Op == OpIAdd) && a.Args[1].Op == OpIntConst {
+		// adding a multiple of 2^w does not change the low w bits
+		m := new(big.Int).Lsh(big.NewInt(1), uint(w))
+		if new(big.Int).Mod(a.Args[1].Val, m).Sign() == 0 {
+			return c.Int2BV(a.Args[0], w)
+		}
 	}
 	return c.mk(&Term{Op: OpInt2BV, Sort: BV(w), Args: []*Term{a}, I1: w})
 }
